@@ -392,8 +392,15 @@ static void sub_rebuild() {
         Rng r(vf::case_seed("rebuild", idx)); int ci = (int)(idx % 4), kind = (int)((idx / 4) % 7); if (kind == 5) kind = 7;   // all families but kron (block_size) keep it simple: 0,1,2,3,4,6,7
         Input in = gen_input(r, kind, false); size_t n = in.A.n;
         Cfg cfg = draw(r, COARS[ci], pick_relax(r, in), n, idx >= 16, 1); if (cfg.coarse_enough > 20) cfg.set_coarse_enough(8);
+        // hierarchy shapes that the random draw (almost) never produces: the whole system handled by the direct solver alone (the single
+        // level then owns a backend matrix AND a solver), one smoother-only level, and two levels with a direct coarse level
+        int shape = (int)((idx / 4) % 8);
+        if (shape == 5) { cfg.set_coarse_enough((unsigned)(n + r.range(0, 50))); cfg.direct = true; cfg.putb("direct_coarse", true); if (cfg.max_levels) cfg.set_max_levels((unsigned)r.range(1, 3)); }
+        else if (shape == 6) { cfg.set_max_levels(1); if (cfg.coarse_enough >= n) cfg.set_coarse_enough(8); }
+        else if (shape == 7) { cfg.set_coarse_enough((unsigned)std::max<size_t>(2, n / 2)); cfg.direct = true; cfg.putb("direct_coarse", true); if (cfg.max_levels == 1) cfg.set_max_levels(2); }
+        const char *shape_name = shape == 5 ? "single-level-direct" : shape == 6 ? "single-level-smoother" : shape == 7 ? "two-level-direct" : "random";
         int nreb = (int)r.range(1, 6);
-        Case c("rebuild", idx, J().s("family", in.family).n("n", n).n("nnz", in.A.nnz()).n("rebuilds", nreb).o("cfg", cfg.desc()).n("threads", omp_get_max_threads()));
+        Case c("rebuild", idx, J().s("family", in.family).n("n", n).n("nnz", in.A.nnz()).n("rebuilds", nreb).s("shape", shape_name).o("cfg", cfg.desc()).n("threads", omp_get_max_threads()));
         g_tape.clear();
         try {
             AMGrec a(in.A.tie(), AMGrec::params(cfg.p)); Built b0;
@@ -447,7 +454,7 @@ static void sub_rebuild() {
                     if (step == nreb) c.check(vf::bitwise_equal(ar, act0), "rebuild:original-action-not-restored:" + tag + "/" + cfg.relax, "rebuild with the original matrix does not restore the original action bitwise", where); }
                 vf::obs_sum("rebuilds_checked");
             }
-            if (m >= 1) c.nontrivial(); vf::obs_add("rebuild_cells", cfg.coars + "/" + cfg.relax);
+            if (m >= 1 || shape == 5 || shape == 6) c.nontrivial(); vf::obs_add("rebuild_shapes", std::string(shape_name) + ":" + std::to_string(lv.size()) + (lv.back().solve ? "-levels-direct" : "-levels-smoother")); vf::obs_add("rebuild_cells", cfg.coars + "/" + cfg.relax);
             vf::sample("rebuild", J().s("family", in.family).n("n", n).s("coarsening", cfg.coars).s("relax", cfg.relax).s("history", hist).s("level_sizes", sizes(a)).n("threads", omp_get_max_threads()));
         } catch (const std::exception &e) { c.fail(build_failure_key(cfg.coars, e), e.what()); }
     }
